@@ -68,13 +68,24 @@ def text_forms(rng, kind, raw):
         return ".".join(str(b) for b in raw)
     import ipaddress
     a = ipaddress.IPv6Address(raw)
-    return rng.choice([a.exploded, a.exploded.upper(), ":".join("%x" % int(g, 16) for g in a.exploded.split(":"))])
+    groups = ["%x" % int(g, 16) for g in a.exploded.split(":")]
+    zero_runs = [(i, j) for i in range(8) for j in range(i + 1, 9) if all(g == "0" for g in groups[i:j])]
+    if zero_runs and rng.random() < 0.7:
+        # "::" standing for one or more zero groups, at the start, in the middle or at the end (RFC 4291 section 2.2)
+        i, j = rng.choice(zero_runs)
+        return ":".join(groups[:i]) + "::" + ":".join(groups[j:])
+    return rng.choice([a.exploded, a.exploded.upper(), ":".join(groups)])
 
 
 def assignment_value(rng, kind, name, width, fk, mode):
     """-> (source text of the value, expected stored integer / address bytes / bool, class)"""
     if fk in ("mac", "ip4", "ip6"):
         raw = pkt.rand_bytes(rng, width // 8)
+        if fk == "ip6" and rng.random() < 0.5:
+            # addresses with a run of 1-8 zero groups somewhere
+            i = rng.randrange(8)
+            j = rng.randint(i + 1, 8)
+            raw = raw[:2 * i] + bytes(2 * (j - i)) + raw[2 * j:]
         if mode == "invalid":
             bad = rng.choice(['"zz"', "5", "null", '""', '"1:2"', '"1.2.3"', '"300.1.1.1"', '"1:2:3:4:5:6:7:8:9"', "[1]", '"gg:00:00:00:00:00"'])
             return bad, None, "invalid"
@@ -103,7 +114,7 @@ def run(chk):
     chk.assumptions = ["an invalid value may be rejected with a runtime error or stored reduced to the field width (both allowed by the property)",
                        "the read-back after re-parsing is skipped when the new value makes the layer unparseable (IHL / data offset below 5 or beyond the capture)"]
     chk.floor = 900
-    chk.rule += '; plus sequences that finally re-type an outer layer, rejected assignments checked for an unchanged packet through the end filter, the inner layer read for the first time after the assignment, IPv6 headers with a damaged version nibble, the filter-mode copies of a packet selected before and after the assignment'
+    chk.rule += '; plus sequences that finally re-type an outer layer, rejected assignments checked for an unchanged packet through the end filter, the inner layer read for the first time after the assignment, IPv6 headers with a damaged version nibble, the filter-mode copies of a packet selected before and after the assignment, IPv6 texts with :: for 1-8 zero groups, assignments next to a cut or malformed inner layer that has been looked at'
     work = core.scratch_dir()
     try:
         jobs = []
@@ -417,6 +428,87 @@ def run(chk):
                                   n_before, n_after, asg, ("copy %d holds %s, expected %s" % (k_ + 1, got[k_].hex()[:160], want[k_].hex()[:160])) if k_ is not None
                                   else "%s copies come out, expected %d (stderr %r)" % (len(got) if got is not None else "unreadable", len(want), rr["err"][-120:])),
                               {"program": prog, "frame_hex": frame.hex(), "expected_after_hex": written.hex()})
+        # ---- the layer inside the assigned one is cut short or malformed (and has been looked at, so that an error object
+        # sits where a layer would): the written bytes still differ from the captured ones in the assigned field only
+        dcases = []
+        dmeta = {}
+        cand_props = [p_ for p_ in props if p_[4] == "int" and p_[1] not in ("ihl", "dataoff", "len", "type", "proto", "nextheader", "version")]
+        for t in range(120 if quick else 2500):
+            stack = rng.choice([s_ for s_ in STACKS if len(s_) >= 2])
+            frame, starts = build_stack(rng, stack)
+            if len(starts) != len(stack):
+                continue
+            inner_kind = stack[-1]
+            how = rng.choice(["cut", "cut", "cut-at-start", "bad-length"])
+            if how == "cut":
+                frame = frame[:starts[-1] + rng.randrange(1, pkt.MINLEN[inner_kind])]
+            elif how == "cut-at-start":
+                frame = frame[:starts[-1]]
+            else:
+                if inner_kind not in ("ipv4", "tcp"):
+                    continue
+                fr = bytearray(frame)
+                if inner_kind == "ipv4":
+                    fr[starts[-1]] = (fr[starts[-1]] & 0xF0) | rng.choice([0, 1, 4])
+                else:
+                    fr[starts[-1] + 12] = (fr[starts[-1] + 12] & 0x0F) | (rng.choice([0, 1, 4]) << 4)
+                frame = bytes(fr)
+            d = len(stack) - 2
+            mine = [p_ for p_ in cand_props if p_[0] == stack[d]]
+            if not mine:
+                continue
+            kind, name, off, width, fk = rng.choice(mine)
+            v = rng.choice([0, (1 << width) - 1, rng.getrandbits(width)])
+            inp = os.path.join(work, "d%d.pcap" % t)
+            outp = os.path.join(work, "do%d.pcap" % t)
+            with open(inp, "wb") as f:
+                f.write(pkt.pcap_file([(11, 22, frame)]))
+            look = rng.choice(["L.%s;" % inner_kind, "L.%s; L.%s;" % (inner_kind, inner_kind), "let e = L.%s; is_error(e);" % inner_kind, ""])
+            src = ("let __o = []; let p = pcap_read_next(pcap_open(%s)); let L = %s; %s L.%s = %s; push(__o, L.%s); %s "
+                   "pcap_write(pcap_open(%s, \"w\"), p); push(__o, \"written\");" % (
+                       lit(inp), path_expr("p", stack, d), look,
+                       name, lit(v), name, rng.choice(["L.%s;" % inner_kind, ""]), lit(outp)))
+            cid = "dm%d" % t
+            dcases.append(Case(cid, src, {"globals": "__o", "steps": 100000}))
+            dmeta[cid] = (stack, starts, frame, d, kind, name, off, width, v, outp, how, src)
+        dres = core.run_cases(dcases)
+        for cid, (stack, starts, frame, d, kind, name, off, width, v, outp, how, src) in dmeta.items():
+            r = dres.get(cid)
+            if r is None:
+                chk.inconc("missing result")
+                continue
+            oc = r.get("outcome")
+            if oc == "panic":
+                chk.violation("panic|" + core.panic_site_sig(r["panic"]["loc"], r["panic"]["msg"]), "assignment next to a damaged inner layer panics", {"src": src})
+                continue
+            if oc != "ok":
+                chk.violation("damaged-inner|rejected|%s.%s" % (kind, name), "%s.%s = %d next to a %s %s layer ends with %s %s" % (kind, name, v, how, stack[-1], oc, r.get("rt")),
+                              {"src": src, "frame_hex": frame.hex()})
+                continue
+            chk.observed(("damaged-inner", kind, name, stack[-1], how))
+            chk.count("assignments_next_to_a_damaged_inner_layer")
+            try:
+                _, recs, _ = pkt.parse_pcap(open(outp, "rb").read())
+                written = recs[0][4] if recs else None
+            except OSError:
+                written = None
+            exp = bytearray(frame)
+            st = starts[d]
+            nbytes = (off % 8 + width + 7) // 8
+            first = st + off // 8
+            cur = int.from_bytes(exp[first:first + nbytes], "big")
+            shift = nbytes * 8 - (off % 8) - width
+            mask = ((1 << width) - 1) << shift
+            cur = (cur & ~mask) | ((v << shift) & mask)
+            exp[first:first + nbytes] = cur.to_bytes(nbytes, "big")
+            got_back = canon_dump(r["globals"]["__o"])[1][0]
+            if kind == "tcp" and name == "flags":
+                continue
+            if written != bytes(exp) or got_back != ("i", v):
+                chk.violation("damaged-inner|%s.%s|%s" % (kind, name, how),
+                              "%s.%s = %d with a %s %s layer inside: reads back %s, wrote %s, expected %s" % (
+                                  kind, name, v, how, stack[-1], show(got_back), written.hex()[:200] if written is not None else None, bytes(exp).hex()[:200]),
+                              {"src": src, "frame_hex": frame.hex(), "written_hex": written.hex() if written else None})
         # ---- an assignment that is rejected with a runtime error leaves the packet unchanged: the packet is looked at
         # afterwards through the end filter, which still runs after a failed action
         BAD = {"mac": ["aa:bb:cc:dd:ee:gg", "aa:bb:cc:dd:ee", "aa:bb:cc:dd:ee:ff:00", "aa:bb:cc:dd:ee:1ff", "aa:bb:cc:dd:zz:ff", "aa:bb:cc:dd:ee:", "11-22-33-44-55-66", ""],
